@@ -4,8 +4,11 @@
  * AngDiff, AngNormalize and Math::sum are inlined (their extracted bodies), remainder is the exact model.
  * The semantic clause is stated for longitudes in (-180, 180) whose difference is clearly below 180 (the property takes the
  * shortest line to be unique). */
-/*@ clause frame src=property props=C14 */
+/*@ clause frame src=property props=C14 only=enforce */
 __CPROVER_assigns(vm_last_k)
+/*@ clause frame.caller src=property only=replace */
+/* the model's ghost is not part of what a caller sees */
+__CPROVER_assigns()
 /*@ clause post.range src=property props=C08 */
 __CPROVER_ensures(-1 <= __CPROVER_return_value && __CPROVER_return_value <= 1)
 /*@ clause post.nan src=property props=C13 */
@@ -25,3 +28,8 @@ __CPROVER_ensures(!((180.0 <= lon1 && lon1 <= 540.0 && lon2 == lon1 - 360.0) || 
 /*@ clause post.antimeridian src=property props=C08 */
 /* the shorter way round between two longitudes more than 181 degrees apart goes across the antimeridian and never over longitude 0 */
 __CPROVER_ensures(!(-180.0 < lon1 && lon1 < 180.0 && -180.0 < lon2 && lon2 < 180.0 && fabs(lon2 - lon1) >= 181.0) || __CPROVER_return_value == 0)
+/*@ ghost */
+int __CPROVER_uninterpreted_transit(double, double);
+/*@ clause post.deterministic src=purity only=replace */
+/* for callers: the count is a function of the two longitudes only (the function is static and reads nothing else) */
+__CPROVER_ensures(__CPROVER_return_value == __CPROVER_uninterpreted_transit(lon1, lon2))
